@@ -2,6 +2,7 @@ import RawPanelVerif.Lemmas.MonoOps
 import RawPanelVerif.Lemmas.MonoTextXform
 import RawPanelVerif.Lemmas.MonoFont
 import RawPanelVerif.Lemmas.MonoTextBox
+import RawPanelVerif.Lemmas.MonoTextDev
 import RawPanelVerif.Spec.TextSpec
 import RawPanelVerif.Driver.Text
 /-!
@@ -37,9 +38,22 @@ malformed bytes are `0xFD`); the theorems below are about the resulting byte(run
 **Other**
 * `strWidth_append`; `wrap_irrelevant` — wrapping on = wrapping off when the box plus `8·h` fits the bounding-box width;
   `wrap_box_fits_counterexample`: "the box fits" alone is not enough ("#." in the 8×8 font on 12 columns).
-* `spec_check_holds` — the executable Spec itself: for strings without line feed, spacing 0, `1 ≤ h`, `1 ≤ v < 2^24`, any
-  cursor / offset, any blank canvas whose width is a multiple of 8, `Spec.Text.check` answers `none` on the model's three
-  renderings with the model's reported metrics (`check_of_facts` is the Spec-side half, usable for any renderer).
+* `spec_check_holds_state` — the executable Spec itself: for **every text state** with spacing 0 (wrapping off, background =
+  text colour), strings without line feed, `1 ≤ h`, `1 ≤ v < 2^24`, any cursor / offset, any blank canvas whose width is a
+  multiple of 8, `Spec.Text.check` answers `none` on the model's three renderings with the model's reported metrics
+  (`check_of_facts`, built from `boxOk_of_facts`, `boxOk1_of_facts`, `translateOk_of_facts`, `scaleOk_of_facts`, is the
+  Spec-side half, usable for any renderer); `spec_check_holds` is the instance for the fixed setter order of `text.case`.
+* `sess_final_holds` — one image object, **any call history** (`Mono.TextCall`: setters in any order, metric queries, earlier
+  texts, re-creations, direct `DrawChar`s — the `text.sess` records): whatever state the history leaves, if its spacing is 0
+  and its sizes are `≥ 1` the final case obeys `Spec.Text.check`; `runCalls_bg`: no history separates background and text
+  colour.  (The model has no state besides canvas × `TextSt`: a cached line height or a memoised glyph width in the code
+  shows as model ≠ implementation and, where it breaks a clause, as a Spec violation of the run.)
+* `spec_check_spacing` — the recorded deviation decided by the Spec: for every text state with **any** extra spacing, in the
+  class of the finding (`knownSpacingClass`) `Spec.Text.check` (with the reported glyph widths attached) answers `none` or
+  `scale.spacing` on the model's renderings, never `scale`: the glyph cells at the advance `h·w + s` are the size-1 cells
+  enlarged exactly, nothing lit between them (`Lemmas/MonoTextDev.textR0_dev`; `check_dev_of_facts` /
+  `scaleDevOk_of_facts` are the Spec-side half).  Non-vacuity: the recorded example evaluates to `scale.spacing`, the same
+  case with one extra pixel to `scale`.
   NOT YET PROVED at Spec level: strings with line feeds (the per-line clauses of the Spec are evaluated on every run; the
   model-level per-line theorems are `ink_in_box_lines`, `translation_lines`, `scale_general`), canvas widths not a multiple of 8.
 -/
@@ -464,6 +478,155 @@ theorem bitAt_inside {wib : Nat} {A : Array UInt8} {X Y : Int} (h : Spec.Text.bi
     · rw [if_pos h2] at h; exact absurd h (by decide)
     · omega
 
+/-! ### From pixel facts to the executable Spec (one line, canvas width a multiple of 8), clause by clause -/
+
+theorem boxOk_of_facts (W H : Nat) (cx cy dx dy h v lh lh1 sw sw1 : Int) (sp glyphs : Nat) (A : Array UInt8) (hl : 0 < lh)
+    (fa : ∀ X Y : Int, Spec.Text.bitAt ((W + 7) / 8) A X Y = true → Y < H ∧ cx ≤ X ∧ X < cx + sw + h ∧ cy ≤ Y ∧ Y < cy + lh) :
+    Spec.Text.boxOk (oneLineCase W H cx cy dx dy h v lh lh1 sw sw1 sp glyphs) A = true := by
+  unfold Spec.Text.boxOk oneLineCase
+  rw [List.all_eq_true]
+  intro p hp
+  obtain ⟨X, Y, rfl, _, _⟩ := mem_textPixels _ p hp
+  simp only []
+  cases hb : Spec.Text.bitAt ((W + 7) / 8) A (X : Int) (Y : Int) with
+  | false => rfl
+  | true =>
+    obtain ⟨_, a1, a2, a3, a4⟩ := fa _ _ hb
+    simp only [Bool.not_true, Bool.false_or]
+    unfold Spec.Text.inBoxes
+    simp only [List.length_singleton]
+    rw [lineIdx_one _ _ _ hl, if_pos ⟨a3, a4⟩]
+    simp only [Spec.Text.lineX, if_true, List.getD_cons_zero, Bool.and_eq_true, decide_eq_true_eq]
+    exact ⟨a1, a2⟩
+
+theorem boxOk1_of_facts (W H : Nat) (cx cy dx dy h v lh lh1 sw sw1 : Int) (sp glyphs : Nat) (C : Array UInt8) (hl1 : 0 < lh1)
+    (fc : ∀ X Y : Int, Spec.Text.bitAt ((W + 7) / 8) C X Y = true → Y < H ∧ cx ≤ X ∧ X < cx + sw1 + 1 ∧ cy ≤ Y ∧ Y < cy + lh1) :
+    Spec.Text.boxOk1 (oneLineCase W H cx cy dx dy h v lh lh1 sw sw1 sp glyphs) C = true := by
+  unfold Spec.Text.boxOk1 oneLineCase
+  rw [List.all_eq_true]
+  intro p hp
+  obtain ⟨X, Y, rfl, _, _⟩ := mem_textPixels _ p hp
+  simp only []
+  cases hb : Spec.Text.bitAt ((W + 7) / 8) C (X : Int) (Y : Int) with
+  | false => rfl
+  | true =>
+    obtain ⟨_, a1, a2, a3, a4⟩ := fc _ _ hb
+    simp only [Bool.not_true, Bool.false_or]
+    unfold Spec.Text.inBoxes
+    simp only [List.length_singleton]
+    rw [lineIdx_one _ _ _ hl1, if_pos ⟨a3, a4⟩]
+    simp only [Spec.Text.lineX, if_true, List.getD_cons_zero, Bool.and_eq_true, decide_eq_true_eq]
+    exact ⟨a1, a2⟩
+
+/-- what the Spec's `unclipped` test says for a one-line case -/
+theorem unclipped_elim (W H : Nat) (cx cy dx dy h v lh lh1 sw sw1 : Int) (sp glyphs : Nat)
+    (hu : Spec.Text.unclipped (oneLineCase W H cx cy dx dy h v lh lh1 sw sw1 sp glyphs) = true) :
+    (0 ≤ cx ∧ 0 ≤ cy ∧ cy + lh ≤ H ∧ cx + sw + h ≤ W) ∧ (0 ≤ cx + dx ∧ 0 ≤ cy + dy ∧ cy + dy + lh ≤ H ∧ cx + dx + sw + h ≤ W) ∧
+    (cy + lh1 ≤ H ∧ cx + sw1 + 1 ≤ W) ∧ 1 ≤ h ∧ 1 ≤ v := by
+  unfold Spec.Text.unclipped Spec.Text.boxesFit oneLineCase at hu
+  simp only [List.length_singleton, List.range_one, List.all_cons, List.all_nil, Bool.and_true, Spec.Text.lineX, if_true,
+    List.getD_cons_zero, Bool.and_eq_true, decide_eq_true_eq, Int.natCast_one, Int.one_mul] at hu
+  obtain ⟨⟨⟨⟨⟨u1, u2, _, u3⟩, _, u4⟩, ⟨u5, u6, _, u7⟩, _, u8⟩, ⟨_, _, _, u9⟩, _, u10⟩, u11, u12⟩ := hu
+  exact ⟨⟨u1, u2, u3, u4⟩, ⟨u5, u6, u7, u8⟩, ⟨u9, u10⟩, u11, u12⟩
+
+theorem translateOk_of_facts (W H : Nat) (hW8 : W % 8 = 0) (cx cy dx dy h v lh lh1 sw sw1 : Int) (sp glyphs : Nat)
+    (A B : Array UInt8) (hl : 0 < lh)
+    (fa : ∀ X Y : Int, Spec.Text.bitAt ((W + 7) / 8) A X Y = true → Y < H ∧ cx ≤ X ∧ X < cx + sw + h ∧ cy ≤ Y ∧ Y < cy + lh)
+    (fb : ∀ X Y : Int, Spec.Text.bitAt ((W + 7) / 8) B X Y = true →
+      Y < H ∧ cx + dx ≤ X ∧ X < cx + dx + sw + h ∧ cy + dy ≤ Y ∧ Y < cy + dy + lh)
+    (u1 : 0 ≤ cx) (u2 : 0 ≤ cy) (u3 : cy + lh ≤ H) (u4 : cx + sw + h ≤ W)
+    (u5 : 0 ≤ cx + dx) (u6 : 0 ≤ cy + dy) (u7 : cy + dy + lh ≤ H) (u8 : cx + dx + sw + h ≤ W)
+    (ft' : ∀ X Y : Int, 0 ≤ X → X < W → 0 ≤ Y → Y < H → 0 ≤ X + dx → X + dx < W → 0 ≤ Y + dy → Y + dy < H →
+        Spec.Text.bitAt ((W + 7) / 8) B (X + dx) (Y + dy) = Spec.Text.bitAt ((W + 7) / 8) A X Y) :
+    Spec.Text.translateOk (oneLineCase W H cx cy dx dy h v lh lh1 sw sw1 sp glyphs) A B = true := by
+  have hwib : ((W + 7) / 8 : Nat) * 8 = W := by omega
+  unfold Spec.Text.translateOk oneLineCase
+  rw [Bool.and_eq_true, List.all_eq_true, List.all_eq_true]
+  constructor
+  · intro p hp
+    obtain ⟨X, Y, rfl, hX, hY⟩ := mem_textPixels _ p hp
+    simp only [List.length_singleton] at hX hY ⊢
+    rw [lineIdx_one _ _ _ hl]
+    by_cases hband : cy ≤ (Y : Int) - dy ∧ (Y : Int) - dy < cy + lh
+    · rw [if_pos hband]
+      simp only [Spec.Text.lineDx, if_true]
+      have hYs : 0 ≤ (Y : Int) - dy ∧ (Y : Int) - dy < H := by omega
+      rw [decide_eq_true hYs, Bool.true_and]
+      by_cases hXs : 0 ≤ (X : Int) - dx ∧ (X : Int) - dx < W
+      · have := ft' ((X : Int) - dx) ((Y : Int) - dy) hXs.1 hXs.2 hYs.1 hYs.2 (by omega) (by omega) (by omega) (by omega)
+        have e1 : (X : Int) - dx + dx = X := by omega
+        have e2 : (Y : Int) - dy + dy = Y := by omega
+        rw [e1, e2] at this
+        rw [this]; simp
+      · have hA : Spec.Text.bitAt ((W + 7) / 8) A ((X : Int) - dx) ((Y : Int) - dy) = false := by
+          cases hb : Spec.Text.bitAt ((W + 7) / 8) A ((X : Int) - dx) ((Y : Int) - dy) with
+          | false => rfl
+          | true => have := bitAt_inside hb; omega
+        have hB : Spec.Text.bitAt ((W + 7) / 8) B (X : Int) (Y : Int) = false := by
+          cases hb : Spec.Text.bitAt ((W + 7) / 8) B (X : Int) (Y : Int) with
+          | false => rfl
+          | true => obtain ⟨_, b1, b2, _, _⟩ := fb _ _ hb; omega
+        rw [hA, hB]; rfl
+    · rw [if_neg hband]
+      cases hb : Spec.Text.bitAt ((W + 7) / 8) B (X : Int) (Y : Int) with
+      | false => rfl
+      | true => obtain ⟨_, _, _, b3, b4⟩ := fb _ _ hb; omega
+  · intro p hp
+    obtain ⟨X, Y, rfl, hX, hY⟩ := mem_textPixels _ p hp
+    simp only [List.length_singleton] at hX hY ⊢
+    cases hb : Spec.Text.bitAt ((W + 7) / 8) A (X : Int) (Y : Int) with
+    | false => rfl
+    | true =>
+      obtain ⟨_, a1, a2, a3, a4⟩ := fa _ _ hb
+      rw [lineIdx_one _ _ _ hl, if_pos ⟨a3, a4⟩]
+      simp only [Spec.Text.lineDx, if_true, Bool.not_true, Bool.false_or, Bool.and_eq_true, decide_eq_true_eq]
+      have : (((W + 7) / 8 : Nat) : Int) * 8 = W := by omega
+      refine ⟨⟨⟨by omega, by omega⟩, by omega⟩, by omega⟩
+
+theorem scaleOk_of_facts (W H : Nat) (hW8 : W % 8 = 0) (cx cy dx dy h v lh lh1 sw sw1 : Int) (sp glyphs : Nat)
+    (A C : Array UInt8) (hl : 0 < lh) (hlv : lh = v * lh1)
+    (fa : ∀ X Y : Int, Spec.Text.bitAt ((W + 7) / 8) A X Y = true → Y < H ∧ cx ≤ X ∧ X < cx + sw + h ∧ cy ≤ Y ∧ Y < cy + lh)
+    (u11 : 1 ≤ h) (u12 : 1 ≤ v)
+    (fs' : ∀ I J p q : Int, 0 ≤ p → p < h → 0 ≤ q → q < v → 0 ≤ I → 0 ≤ J → cx + h * I + p < W → cy + v * J + q < H →
+        Spec.Text.bitAt ((W + 7) / 8) A (cx + h * I + p) (cy + v * J + q) = Spec.Text.bitAt ((W + 7) / 8) C (cx + I) (cy + J)) :
+    Spec.Text.scaleOk (oneLineCase W H cx cy dx dy h v lh lh1 sw sw1 sp glyphs) A C = true := by
+  have hwib : ((W + 7) / 8 : Nat) * 8 = W := by omega
+  unfold Spec.Text.scaleOk oneLineCase
+  rw [List.all_eq_true]
+  intro p hp
+  obtain ⟨X, Y, rfl, hX, hY⟩ := mem_textPixels _ p hp
+  simp only [List.length_singleton] at hX hY ⊢
+  rw [lineIdx_one _ _ _ hl]
+  by_cases hband : cy ≤ (Y : Int) ∧ (Y : Int) < cy + lh
+  · rw [if_pos hband]
+    simp only [Spec.Text.lineX, if_true, Int.natCast_zero, Int.zero_mul, Int.add_zero]
+    by_cases hi : (X : Int) - cx < 0
+    · rw [if_pos hi]
+      cases hb : Spec.Text.bitAt ((W + 7) / 8) A (X : Int) (Y : Int) with
+      | false => rfl
+      | true => obtain ⟨_, a1, _, _, _⟩ := fa _ _ hb; omega
+    · rw [if_neg hi]
+      have hh0 : 0 < h := by omega
+      have hv0 : 0 < v := by omega
+      have e1 := Int.emod_add_mul_ediv ((X : Int) - cx) h
+      have e2 := Int.emod_add_mul_ediv ((Y : Int) - cy) v
+      have m1 := Int.emod_nonneg ((X : Int) - cx) (by omega : h ≠ 0)
+      have m2 := Int.emod_lt_of_pos ((X : Int) - cx) hh0
+      have m3 := Int.emod_nonneg ((Y : Int) - cy) (by omega : v ≠ 0)
+      have m4 := Int.emod_lt_of_pos ((Y : Int) - cy) hv0
+      have d1 : 0 ≤ ((X : Int) - cx) / h := Int.ediv_nonneg (by omega) (by omega)
+      have d2 : 0 ≤ ((Y : Int) - cy) / v := Int.ediv_nonneg (by omega) (by omega)
+      have := fs' (((X : Int) - cx) / h) (((Y : Int) - cy) / v) (((X : Int) - cx) % h) (((Y : Int) - cy) % v)
+        m1 m2 m3 m4 d1 d2 (by omega) (by omega)
+      have ex : cx + h * (((X : Int) - cx) / h) + ((X : Int) - cx) % h = X := by omega
+      have ey : cy + v * (((Y : Int) - cy) / v) + ((Y : Int) - cy) % v = Y := by omega
+      rw [ex, ey] at this
+      rw [this]; simp
+  · rw [if_neg hband]
+    cases hb : Spec.Text.bitAt ((W + 7) / 8) A (X : Int) (Y : Int) with
+    | false => rfl
+    | true => obtain ⟨_, _, _, a3, a4⟩ := fa _ _ hb; omega
+
 /-- **From pixel facts to the executable Spec** (one line, canvas width a multiple of 8): if the three observed renderings
 have their ink in their boxes and — when unclipped — `B` is `A` translated and `A` is `C` enlarged, `Spec.Text.check`
 answers `none`. -/
@@ -482,38 +645,8 @@ theorem check_of_facts (W H : Nat) (hW8 : W % 8 = 0) (cx cy dx dy h v lh lh1 sw 
     Spec.Text.check (oneLineCase W H cx cy dx dy h v lh lh1 sw sw1 sp glyphs) A B C = none := by
   have hwib : ((W + 7) / 8 : Nat) * 8 = W := by omega
   -- box clauses
-  have hbox : Spec.Text.boxOk (oneLineCase W H cx cy dx dy h v lh lh1 sw sw1 sp glyphs) A = true := by
-    unfold Spec.Text.boxOk oneLineCase
-    rw [List.all_eq_true]
-    intro p hp
-    obtain ⟨X, Y, rfl, _, _⟩ := mem_textPixels _ p hp
-    simp only []
-    cases hb : Spec.Text.bitAt ((W + 7) / 8) A (X : Int) (Y : Int) with
-    | false => rfl
-    | true =>
-      obtain ⟨_, a1, a2, a3, a4⟩ := fa _ _ hb
-      simp only [Bool.not_true, Bool.false_or]
-      unfold Spec.Text.inBoxes
-      simp only [List.length_singleton]
-      rw [lineIdx_one _ _ _ hl, if_pos ⟨a3, a4⟩]
-      simp only [Spec.Text.lineX, if_true, List.getD_cons_zero, Bool.and_eq_true, decide_eq_true_eq]
-      exact ⟨a1, a2⟩
-  have hbox1 : Spec.Text.boxOk1 (oneLineCase W H cx cy dx dy h v lh lh1 sw sw1 sp glyphs) C = true := by
-    unfold Spec.Text.boxOk1 oneLineCase
-    rw [List.all_eq_true]
-    intro p hp
-    obtain ⟨X, Y, rfl, _, _⟩ := mem_textPixels _ p hp
-    simp only []
-    cases hb : Spec.Text.bitAt ((W + 7) / 8) C (X : Int) (Y : Int) with
-    | false => rfl
-    | true =>
-      obtain ⟨_, a1, a2, a3, a4⟩ := fc _ _ hb
-      simp only [Bool.not_true, Bool.false_or]
-      unfold Spec.Text.inBoxes
-      simp only [List.length_singleton]
-      rw [lineIdx_one _ _ _ hl1, if_pos ⟨a3, a4⟩]
-      simp only [Spec.Text.lineX, if_true, List.getD_cons_zero, Bool.and_eq_true, decide_eq_true_eq]
-      exact ⟨a1, a2⟩
+  have hbox := boxOk_of_facts W H cx cy dx dy h v lh lh1 sw sw1 sp glyphs A hl fa
+  have hbox1 := boxOk1_of_facts W H cx cy dx dy h v lh lh1 sw sw1 sp glyphs C hl1 fc
   unfold Spec.Text.check
   rw [hbox, hbox1]
   simp only [Bool.not_true, Bool.false_eq_true, if_false]
@@ -521,94 +654,98 @@ theorem check_of_facts (W H : Nat) (hW8 : W % 8 = 0) (cx cy dx dy h v lh lh1 sw 
   | false => simp
   | true =>
     simp only [Bool.not_true, Bool.false_eq_true, if_false]
-    -- what "unclipped" says
-    unfold Spec.Text.unclipped Spec.Text.boxesFit oneLineCase at hu
-    simp only [List.length_singleton, List.range_one, List.all_cons, List.all_nil, Bool.and_true, Spec.Text.lineX, if_true,
-      List.getD_cons_zero, Bool.and_eq_true, decide_eq_true_eq, Int.natCast_one, Int.one_mul] at hu
-    obtain ⟨⟨⟨⟨⟨u1, u2, _, u3⟩, _, u4⟩, ⟨u5, u6, _, u7⟩, _, u8⟩, ⟨_, _, _, u9⟩, _, u10⟩, u11, u12⟩ := hu
-    have ft' := ft u1 u2 u3 u4 u5 u6 u7 u8
-    have fs' := fs u1 u2 u3 u4 u9 u10 u11 u12
-    have htr : Spec.Text.translateOk (oneLineCase W H cx cy dx dy h v lh lh1 sw sw1 sp glyphs) A B = true := by
-      unfold Spec.Text.translateOk oneLineCase
-      rw [Bool.and_eq_true, List.all_eq_true, List.all_eq_true]
-      constructor
-      · intro p hp
-        obtain ⟨X, Y, rfl, hX, hY⟩ := mem_textPixels _ p hp
-        simp only [List.length_singleton] at hX hY ⊢
-        rw [lineIdx_one _ _ _ hl]
-        by_cases hband : cy ≤ (Y : Int) - dy ∧ (Y : Int) - dy < cy + lh
-        · rw [if_pos hband]
-          simp only [Spec.Text.lineDx, if_true]
-          have hYs : 0 ≤ (Y : Int) - dy ∧ (Y : Int) - dy < H := by omega
-          rw [decide_eq_true hYs, Bool.true_and]
-          by_cases hXs : 0 ≤ (X : Int) - dx ∧ (X : Int) - dx < W
-          · have := ft' ((X : Int) - dx) ((Y : Int) - dy) hXs.1 hXs.2 hYs.1 hYs.2 (by omega) (by omega) (by omega) (by omega)
-            have e1 : (X : Int) - dx + dx = X := by omega
-            have e2 : (Y : Int) - dy + dy = Y := by omega
-            rw [e1, e2] at this
-            rw [this]; simp
-          · have hA : Spec.Text.bitAt ((W + 7) / 8) A ((X : Int) - dx) ((Y : Int) - dy) = false := by
-              cases hb : Spec.Text.bitAt ((W + 7) / 8) A ((X : Int) - dx) ((Y : Int) - dy) with
-              | false => rfl
-              | true => have := bitAt_inside hb; omega
-            have hB : Spec.Text.bitAt ((W + 7) / 8) B (X : Int) (Y : Int) = false := by
-              cases hb : Spec.Text.bitAt ((W + 7) / 8) B (X : Int) (Y : Int) with
-              | false => rfl
-              | true => obtain ⟨_, b1, b2, _, _⟩ := fb _ _ hb; omega
-            rw [hA, hB]; rfl
-        · rw [if_neg hband]
-          cases hb : Spec.Text.bitAt ((W + 7) / 8) B (X : Int) (Y : Int) with
-          | false => rfl
-          | true => obtain ⟨_, _, _, b3, b4⟩ := fb _ _ hb; omega
-      · intro p hp
-        obtain ⟨X, Y, rfl, hX, hY⟩ := mem_textPixels _ p hp
-        simp only [List.length_singleton] at hX hY ⊢
-        cases hb : Spec.Text.bitAt ((W + 7) / 8) A (X : Int) (Y : Int) with
-        | false => rfl
-        | true =>
-          obtain ⟨_, a1, a2, a3, a4⟩ := fa _ _ hb
-          rw [lineIdx_one _ _ _ hl, if_pos ⟨a3, a4⟩]
-          simp only [Spec.Text.lineDx, if_true, Bool.not_true, Bool.false_or, Bool.and_eq_true, decide_eq_true_eq]
-          have : (((W + 7) / 8 : Nat) : Int) * 8 = W := by omega
-          refine ⟨⟨⟨by omega, by omega⟩, by omega⟩, by omega⟩
-    have hsc : Spec.Text.scaleOk (oneLineCase W H cx cy dx dy h v lh lh1 sw sw1 sp glyphs) A C = true := by
-      unfold Spec.Text.scaleOk oneLineCase
-      rw [List.all_eq_true]
-      intro p hp
-      obtain ⟨X, Y, rfl, hX, hY⟩ := mem_textPixels _ p hp
-      simp only [List.length_singleton] at hX hY ⊢
-      rw [lineIdx_one _ _ _ hl]
-      by_cases hband : cy ≤ (Y : Int) ∧ (Y : Int) < cy + lh
-      · rw [if_pos hband]
-        simp only [Spec.Text.lineX, if_true, Int.natCast_zero, Int.zero_mul, Int.add_zero]
-        by_cases hi : (X : Int) - cx < 0
-        · rw [if_pos hi]
-          cases hb : Spec.Text.bitAt ((W + 7) / 8) A (X : Int) (Y : Int) with
-          | false => rfl
-          | true => obtain ⟨_, a1, _, _, _⟩ := fa _ _ hb; omega
-        · rw [if_neg hi]
-          have hh0 : 0 < h := by omega
-          have hv0 : 0 < v := by omega
-          have e1 := Int.emod_add_mul_ediv ((X : Int) - cx) h
-          have e2 := Int.emod_add_mul_ediv ((Y : Int) - cy) v
-          have m1 := Int.emod_nonneg ((X : Int) - cx) (by omega : h ≠ 0)
-          have m2 := Int.emod_lt_of_pos ((X : Int) - cx) hh0
-          have m3 := Int.emod_nonneg ((Y : Int) - cy) (by omega : v ≠ 0)
-          have m4 := Int.emod_lt_of_pos ((Y : Int) - cy) hv0
-          have d1 : 0 ≤ ((X : Int) - cx) / h := Int.ediv_nonneg (by omega) (by omega)
-          have d2 : 0 ≤ ((Y : Int) - cy) / v := Int.ediv_nonneg (by omega) (by omega)
-          have := fs' (((X : Int) - cx) / h) (((Y : Int) - cy) / v) (((X : Int) - cx) % h) (((Y : Int) - cy) % v)
-            m1 m2 m3 m4 d1 d2 (by omega) (by omega)
-          have ex : cx + h * (((X : Int) - cx) / h) + ((X : Int) - cx) % h = X := by omega
-          have ey : cy + v * (((Y : Int) - cy) / v) + ((Y : Int) - cy) % v = Y := by omega
-          rw [ex, ey] at this
-          rw [this]; simp
-      · rw [if_neg hband]
-        cases hb : Spec.Text.bitAt ((W + 7) / 8) A (X : Int) (Y : Int) with
-        | false => rfl
-        | true => obtain ⟨_, _, _, a3, a4⟩ := fa _ _ hb; omega
+    obtain ⟨⟨u1, u2, u3, u4⟩, ⟨u5, u6, u7, u8⟩, ⟨u9, u10⟩, u11, u12⟩ := unclipped_elim W H cx cy dx dy h v lh lh1 sw sw1 sp glyphs hu
+    have htr := translateOk_of_facts W H hW8 cx cy dx dy h v lh lh1 sw sw1 sp glyphs A B hl fa fb u1 u2 u3 u4 u5 u6 u7 u8
+      (ft u1 u2 u3 u4 u5 u6 u7 u8)
+    have hsc := scaleOk_of_facts W H hW8 cx cy dx dy h v lh lh1 sw sw1 sp glyphs A C hl hlv fa u11 u12
+      (fs u1 u2 u3 u4 u9 u10 u11 u12)
     rw [htr, hsc]
     simp
+
+/-! ### The documented deviation `scale.spacing` at Spec level -/
+
+/-- a case with the reported glyph widths of its line attached -/
+def withCws (k : Spec.Text.Case) (ws : List Int) : Spec.Text.Case := { k with cws := [ws] }
+
+/-- the bit of the size-1 rendering `devSource` points to (blank outside every glyph cell) -/
+def devBit (wib : Nat) (C : Array UInt8) (Y : Int) : Option Int → Bool
+  | none => false
+  | some xc => Spec.Text.bitAt wib C xc Y
+
+theorem scaleDevOk_of_facts (W H : Nat) (hW8 : W % 8 = 0) (cx cy dx dy h v lh lh1 sw sw1 : Int) (sp glyphs : Nat) (ws : List Int)
+    (A C : Array UInt8) (hl : 0 < lh)
+    (fa : ∀ X Y : Int, Spec.Text.bitAt ((W + 7) / 8) A X Y = true → Y < H ∧ cx ≤ X ∧ X < cx + sw + h ∧ cy ≤ Y ∧ Y < cy + lh)
+    (u12 : 1 ≤ v)
+    (fd' : ∀ (X Y : Nat) (J q : Int), X < W → Y < H → 0 ≤ q → q < v → 0 ≤ J → (Y : Int) = cy + v * J + q → (Y : Int) < cy + lh →
+        Spec.Text.bitAt ((W + 7) / 8) A X Y = devBit ((W + 7) / 8) C (cy + J) (Spec.Text.devSource h sp ws cx cx X)) :
+    Spec.Text.scaleDevOk (withCws (oneLineCase W H cx cy dx dy h v lh lh1 sw sw1 sp glyphs) ws) A C = true := by
+  have hwib : ((W + 7) / 8 : Nat) * 8 = W := by omega
+  unfold Spec.Text.scaleDevOk withCws oneLineCase
+  rw [List.all_eq_true]
+  intro p hp
+  obtain ⟨X, Y, rfl, hX, hY⟩ := mem_textPixels _ p hp
+  simp only [List.length_singleton] at hX hY ⊢
+  rw [lineIdx_one _ _ _ hl]
+  by_cases hband : cy ≤ (Y : Int) ∧ (Y : Int) < cy + lh
+  · rw [if_pos hband]
+    simp only [Spec.Text.lineX, if_true, Int.natCast_zero, Int.zero_mul, Int.add_zero, List.getD_cons_zero]
+    have hv0 : 0 < v := by omega
+    have e2 := Int.emod_add_mul_ediv ((Y : Int) - cy) v
+    have m3 := Int.emod_nonneg ((Y : Int) - cy) (by omega : v ≠ 0)
+    have m4 := Int.emod_lt_of_pos ((Y : Int) - cy) hv0
+    have d2 : 0 ≤ ((Y : Int) - cy) / v := Int.ediv_nonneg (by omega) (by omega)
+    have key := fd' X Y (((Y : Int) - cy) / v) (((Y : Int) - cy) % v) (by omega) hY m3 m4 d2 (by omega) hband.2
+    rw [key]
+    split
+    · rename_i hd; rw [hd]; rfl
+    · rename_i xc hd; rw [hd]; simp [devBit]
+  · rw [if_neg hband]
+    cases hb : Spec.Text.bitAt ((W + 7) / 8) A (X : Int) (Y : Int) with
+    | false => rfl
+    | true => obtain ⟨_, _, _, a3, a4⟩ := fa _ _ hb; omega
+
+/-- **From pixel facts to the executable Spec, any extra spacing**: if the three observed renderings have their ink in
+their boxes and — when unclipped — `B` is `A` translated and `A` is what the documented advance rule gives (every glyph cell
+the size-1 cell enlarged, nothing between the cells), then in the recorded class (`knownSpacingClass`) `Spec.Text.check`
+answers `none` or `scale.spacing`, never `scale` (nor `box`, `box1`, `translate`). -/
+theorem check_dev_of_facts (W H : Nat) (hW8 : W % 8 = 0) (cx cy dx dy h v lh lh1 sw sw1 : Int) (sp glyphs : Nat) (ws : List Int)
+    (A B C : Array UInt8) (hl : 0 < lh) (hl1 : 0 < lh1)
+    (fa : ∀ X Y : Int, Spec.Text.bitAt ((W + 7) / 8) A X Y = true → Y < H ∧ cx ≤ X ∧ X < cx + sw + h ∧ cy ≤ Y ∧ Y < cy + lh)
+    (fb : ∀ X Y : Int, Spec.Text.bitAt ((W + 7) / 8) B X Y = true →
+      Y < H ∧ cx + dx ≤ X ∧ X < cx + dx + sw + h ∧ cy + dy ≤ Y ∧ Y < cy + dy + lh)
+    (fc : ∀ X Y : Int, Spec.Text.bitAt ((W + 7) / 8) C X Y = true → Y < H ∧ cx ≤ X ∧ X < cx + sw1 + 1 ∧ cy ≤ Y ∧ Y < cy + lh1)
+    (ft : 0 ≤ cx → 0 ≤ cy → cy + lh ≤ H → cx + sw + h ≤ W → 0 ≤ cx + dx → 0 ≤ cy + dy → cy + dy + lh ≤ H → cx + dx + sw + h ≤ W →
+      ∀ X Y : Int, 0 ≤ X → X < W → 0 ≤ Y → Y < H → 0 ≤ X + dx → X + dx < W → 0 ≤ Y + dy → Y + dy < H →
+        Spec.Text.bitAt ((W + 7) / 8) B (X + dx) (Y + dy) = Spec.Text.bitAt ((W + 7) / 8) A X Y)
+    (fd : 0 ≤ cx → 0 ≤ cy → cy + lh ≤ H → cx + sw + h ≤ W → cy + lh1 ≤ H → cx + sw1 + 1 ≤ W → 1 ≤ h → 1 ≤ v →
+      ∀ (X Y : Nat) (J q : Int), X < W → Y < H → 0 ≤ q → q < v → 0 ≤ J → (Y : Int) = cy + v * J + q → (Y : Int) < cy + lh →
+        Spec.Text.bitAt ((W + 7) / 8) A X Y = devBit ((W + 7) / 8) C (cy + J) (Spec.Text.devSource h sp ws cx cx X))
+    (hk : Spec.Text.knownSpacingClass (withCws (oneLineCase W H cx cy dx dy h v lh lh1 sw sw1 sp glyphs) ws) = true) :
+    Spec.Text.check (withCws (oneLineCase W H cx cy dx dy h v lh lh1 sw sw1 sp glyphs) ws) A B C = none ∨
+    Spec.Text.check (withCws (oneLineCase W H cx cy dx dy h v lh lh1 sw sw1 sp glyphs) ws) A B C = some "scale.spacing" := by
+  have hbox : Spec.Text.boxOk (withCws (oneLineCase W H cx cy dx dy h v lh lh1 sw sw1 sp glyphs) ws) A = true :=
+    boxOk_of_facts W H cx cy dx dy h v lh lh1 sw sw1 sp glyphs A hl fa
+  have hbox1 : Spec.Text.boxOk1 (withCws (oneLineCase W H cx cy dx dy h v lh lh1 sw sw1 sp glyphs) ws) C = true :=
+    boxOk1_of_facts W H cx cy dx dy h v lh lh1 sw sw1 sp glyphs C hl1 fc
+  unfold Spec.Text.check
+  rw [hbox, hbox1, hk]
+  simp only [Bool.not_true, Bool.false_eq_true, if_false]
+  cases hu : Spec.Text.unclipped (withCws (oneLineCase W H cx cy dx dy h v lh lh1 sw sw1 sp glyphs) ws) with
+  | false => simp
+  | true =>
+    simp only [Bool.not_true, Bool.false_eq_true, if_false]
+    have hu' : Spec.Text.unclipped (oneLineCase W H cx cy dx dy h v lh lh1 sw sw1 sp glyphs) = true := hu
+    obtain ⟨⟨u1, u2, u3, u4⟩, ⟨u5, u6, u7, u8⟩, ⟨u9, u10⟩, u11, u12⟩ := unclipped_elim W H cx cy dx dy h v lh lh1 sw sw1 sp glyphs hu'
+    have htr : Spec.Text.translateOk (withCws (oneLineCase W H cx cy dx dy h v lh lh1 sw sw1 sp glyphs) ws) A B = true :=
+      translateOk_of_facts W H hW8 cx cy dx dy h v lh lh1 sw sw1 sp glyphs A B hl fa fb u1 u2 u3 u4 u5 u6 u7 u8
+        (ft u1 u2 u3 u4 u5 u6 u7 u8)
+    have hdev := scaleDevOk_of_facts W H hW8 cx cy dx dy h v lh lh1 sw sw1 sp glyphs ws A C hl fa u12
+      (fd u1 u2 u3 u4 u9 u10 u11 u12)
+    rw [htr, hdev]
+    simp only [Bool.not_true, Bool.false_eq_true, if_false, Bool.and_self, if_true]
+    cases Spec.Text.scaleOk (withCws (oneLineCase W H cx cy dx dy h v lh lh1 sw sw1 sp glyphs) ws) A C with
+    | true => left; simp
+    | false => right; simp
 
 /-- the text state of a case with spacing 0, spelled out -/
 def mkState (font : Int) (prop : Bool) (cx cy h v : Int) : TextSt :=
@@ -664,32 +801,22 @@ theorem bitAt_in_box (W H : Nat) (t : TextSt) (s : List Nat) (hs : 10 ∉ s) (hw
   · rw [key hin, getPx_newCanvas] at hb
     exact absurd hb (by decide)
 
-/-- **The executable Spec holds of the model's three renderings.**  For every font number, mode, string without line feed,
-sizes `1 ≤ h`, `1 ≤ v < 2^24`, cursor and offset, extra spacing 0, on every blank canvas whose width is a multiple of 8:
-`Spec.Text.check` — the predicate the run evaluates on the implementation's output — answers `none` on the renderings of the
-model (`A` at the cursor, `B` at the moved cursor, `C` at size 1) with the model's reported widths and line heights: ink in
-the box always, translation and scaling whenever the Spec's own `unclipped` test says the boxes lie on the canvas. -/
-theorem spec_check_holds (W H : Nat) (hW8 : W % 8 = 0) (font : Int) (prop : Bool) (h v cx cy dx dy : Int) (s : List Nat)
+/-- **The executable Spec holds of the model's three renderings, whatever text state the object is in.**  For every text
+state `base` with extra spacing 0, wrapping off and background = text colour (what `SetTextColor` always leaves), every
+string without line feed, sizes `1 ≤ h`, `1 ≤ v < 2^24`, cursor and offset, on every blank canvas whose width is a multiple
+of 8: `Spec.Text.check` — the predicate the run evaluates on the implementation's output — answers `none` on the renderings
+of the model (`A` at the cursor, `B` at the moved cursor, `C` at size 1) with the model's reported widths and line heights:
+ink in the box always, translation and scaling whenever the Spec's own `unclipped` test says the boxes lie on the canvas. -/
+theorem spec_check_holds_state (W H : Nat) (hW8 : W % 8 = 0) (base : TextSt) (hsp : base.spacing = 0)
+    (hwr : base.wrap = false) (hbg : base.tbg = base.tcol) (h v cx cy dx dy : Int) (s : List Nat)
     (hs : 10 ∉ s) (hh : 1 ≤ h) (hv : 1 ≤ v) (hv' : v < 16777216) (glyphs : Nat) :
     Spec.Text.check
-      (oneLineCase W H cx cy dx dy h v (lineHeight (caseState font prop 0 h v cx cy)) (lineHeight (caseState font prop 0 1 1 cx cy))
-        (strWidth (caseState font prop 0 h v cx cy) s) (strWidth (caseState font prop 0 1 1 cx cy) s) 0 glyphs)
-      (bytesU8 (renderText (newCanvas W H, caseState font prop 0 h v cx cy) s).1)
-      (bytesU8 (renderText (newCanvas W H, caseState font prop 0 h v (cx + dx) (cy + dy)) s).1)
-      (bytesU8 (renderText (newCanvas W H, caseState font prop 0 1 1 cx cy) s).1) = none := by
-  rw [caseState_eq font prop h v cx cy hh hv, caseState_eq font prop h v (cx + dx) (cy + dy) hh hv,
-    caseState_eq font prop 1 1 cx cy (by omega) (by omega)]
-  -- the three text states
-  generalize hbase : mkState font prop 0 0 1 1 = base
-  have eA : mkState font prop cx cy h v = atSize base h v cx cy := by rw [← hbase]; rfl
-  have eB : mkState font prop (cx + dx) (cy + dy) h v =
-      { atSize base h v cx cy with cx := (atSize base h v cx cy).cx + dx, cy := (atSize base h v cx cy).cy + dy } := by
-    rw [← hbase]; rfl
-  have eC : mkState font prop cx cy 1 1 = atSize base 1 1 cx cy := by rw [← hbase]; rfl
-  rw [eA, eB, eC]
-  have hsp : base.spacing = 0 := by rw [← hbase]; rfl
-  have hwr : base.wrap = false := by rw [← hbase]; rfl
-  have hbg : base.tbg = base.tcol := by rw [← hbase]; rfl
+      (oneLineCase W H cx cy dx dy h v (lineHeight (atSize base h v cx cy)) (lineHeight (atSize base 1 1 cx cy))
+        (strWidth (atSize base h v cx cy) s) (strWidth (atSize base 1 1 cx cy) s) 0 glyphs)
+      (bytesU8 (renderText (newCanvas W H, atSize base h v cx cy) s).1)
+      (bytesU8 (renderText (newCanvas W H,
+        { atSize base h v cx cy with cx := (atSize base h v cx cy).cx + dx, cy := (atSize base h v cx cy).cy + dy }) s).1)
+      (bytesU8 (renderText (newCanvas W H, atSize base 1 1 cx cy) s).1) = none := by
   have hfp : ∀ (a b c d : Int), (atSize base a b c d).fp = base.fp := fun _ _ _ _ => rfl
   obtain ⟨hbw, hbh⟩ := fp_pos base.font
   have hbh8 := (font_tables_sized.2.2.2 base.font).2.2.1
@@ -788,6 +915,277 @@ theorem spec_check_holds (W H : Nat) (hW8 : W % 8 = 0) (font : Int) (prop : Bool
     rw [gA] at r1; rw [gC] at r2
     rw [r1, r2]
     exact key
+
+/-- **In the recorded class the model is never a plain `scale` violation.**  For every text state (any extra spacing), string
+without line feed, sizes `1 ≤ h`, `1 ≤ v < 2^24`, cursor, offset and blank canvas of width a multiple of 8: with the glyph
+widths the model reports attached to the case, `Spec.Text.check` answers `none` or — the documented deviation, excused —
+`scale.spacing` on the model's three renderings, whenever the case lies in the class of the finding (`knownSpacingClass`:
+spacing `> 0`, `h > 1`, at least two glyphs).  So on that class `box`, `box1`, `translate` and `scale` are all decided by the
+Spec against the code's documented rule: the glyph cells at the advance `h·w + s` are the size-1 cells enlarged exactly
+`h × v` and nothing is lit between them (`Lemmas/MonoTextDev.textR0_dev`). -/
+theorem spec_check_spacing (W H : Nat) (hW8 : W % 8 = 0) (base : TextSt)
+    (hwr : base.wrap = false) (hbg : base.tbg = base.tcol) (h v cx cy dx dy : Int) (s : List Nat)
+    (hs : 10 ∉ s) (hh : 1 ≤ h) (hv : 1 ≤ v) (hv' : v < 16777216) (glyphs : Nat)
+    (hk : Spec.Text.knownSpacingClass (withCws
+      (oneLineCase W H cx cy dx dy h v (lineHeight (atSize base h v cx cy)) (lineHeight (atSize base 1 1 cx cy))
+        (strWidth (atSize base h v cx cy) s) (strWidth (atSize base 1 1 cx cy) s) base.spacing glyphs) (glyphWs base s)) = true) :
+    Spec.Text.check (withCws
+      (oneLineCase W H cx cy dx dy h v (lineHeight (atSize base h v cx cy)) (lineHeight (atSize base 1 1 cx cy))
+        (strWidth (atSize base h v cx cy) s) (strWidth (atSize base 1 1 cx cy) s) base.spacing glyphs) (glyphWs base s))
+      (bytesU8 (renderText (newCanvas W H, atSize base h v cx cy) s).1)
+      (bytesU8 (renderText (newCanvas W H,
+        { atSize base h v cx cy with cx := (atSize base h v cx cy).cx + dx, cy := (atSize base h v cx cy).cy + dy }) s).1)
+      (bytesU8 (renderText (newCanvas W H, atSize base 1 1 cx cy) s).1) = none ∨
+    Spec.Text.check (withCws
+      (oneLineCase W H cx cy dx dy h v (lineHeight (atSize base h v cx cy)) (lineHeight (atSize base 1 1 cx cy))
+        (strWidth (atSize base h v cx cy) s) (strWidth (atSize base 1 1 cx cy) s) base.spacing glyphs) (glyphWs base s))
+      (bytesU8 (renderText (newCanvas W H, atSize base h v cx cy) s).1)
+      (bytesU8 (renderText (newCanvas W H,
+        { atSize base h v cx cy with cx := (atSize base h v cx cy).cx + dx, cy := (atSize base h v cx cy).cy + dy }) s).1)
+      (bytesU8 (renderText (newCanvas W H, atSize base 1 1 cx cy) s).1) = some "scale.spacing" := by
+  have hfp : ∀ (a b c d : Int), (atSize base a b c d).fp = base.fp := fun _ _ _ _ => rfl
+  obtain ⟨hbw, hbh⟩ := fp_pos base.font
+  have hbh8 := (font_tables_sized.2.2.2 base.font).2.2.1
+  -- line heights
+  have elh : (lineHeight (atSize base h v cx cy) : Int) = (base.fp.bbH : Int) * v :=
+    lineHeight_eq (atSize base h v cx cy) (by show 0 ≤ v; omega) (by show v < 16777216; exact hv') (by unfold TextSt.fp atSize; simp only []; omega)
+  have elh1 : (lineHeight (atSize base 1 1 cx cy) : Int) = (base.fp.bbH : Int) * 1 :=
+    lineHeight_eq (atSize base 1 1 cx cy) (by show (0 : Int) ≤ 1; omega) (by show (1 : Int) < 16777216; omega) (by unfold TextSt.fp atSize; simp only []; omega)
+  have hbh1 : (1 : Int) ≤ (base.fp.bbH : Int) := by unfold TextSt.fp; omega
+  have hlpos : (0 : Int) < (base.fp.bbH : Int) * v := Int.mul_pos (by omega) (by omega)
+  -- widths
+  have esw := strWidth_eq (atSize base h v cx cy) s
+  have esw1 := strWidth_eq (atSize base 1 1 cx cy) s
+  have etsH : (atSize base h v cx cy).tsH = h := rfl
+  have etsH1 : (atSize base 1 1 cx cy).tsH = 1 := rfl
+  refine check_dev_of_facts W H hW8 cx cy dx dy h v _ _ _ _ base.spacing glyphs (glyphWs base s) _ _ _ (by rw [elh]; exact hlpos) (by rw [elh1]; omega)
+    ?_ ?_ ?_ ?_ ?_ hk
+  · intro X Y hb
+    have := bitAt_in_box W H (atSize base h v cx cy) s hs hwr (by show 0 ≤ h; omega) X Y hb
+    rw [elh]
+    exact this
+  · intro X Y hb
+    have := bitAt_in_box W H { atSize base h v cx cy with cx := (atSize base h v cx cy).cx + dx, cy := (atSize base h v cx cy).cy + dy }
+      s hs hwr (by show 0 ≤ h; omega) X Y hb
+    rw [elh]
+    have e1 : strWidth { atSize base h v cx cy with cx := (atSize base h v cx cy).cx + dx, cy := (atSize base h v cx cy).cy + dy } s =
+        strWidth (atSize base h v cx cy) s := by
+      rw [strWidth_eq, strWidth_eq, advSum_cxy]
+    rw [e1] at this
+    exact this
+  · intro X Y hb
+    have := bitAt_in_box W H (atSize base 1 1 cx cy) s hs hwr (by show (0 : Int) ≤ 1; omega) X Y hb
+    rw [elh1]
+    exact this
+  · -- translation
+    intro u1 u2 u3 u4 u5 u6 u7 u8 X Y x0 x1 y0 y1 x2 x3 y2 y3
+    rw [esw, etsH] at u4 u8
+    rw [elh] at u3 u7
+    obtain ⟨Xn, rfl⟩ := Int.eq_ofNat_of_zero_le x0
+    obtain ⟨Yn, rfl⟩ := Int.eq_ofNat_of_zero_le y0
+    obtain ⟨Xn', hXn'⟩ := Int.eq_ofNat_of_zero_le x2
+    obtain ⟨Yn', hYn'⟩ := Int.eq_ofNat_of_zero_le y2
+    rw [hXn', hYn']
+    have hneA : NoEarly (geo0 W H) (atSize base h v cx cy) s :=
+      noEarly_of_fits W H s _ (by show 1 ≤ h; exact hh) (by show 1 ≤ v; exact hv) (by show 0 ≤ cx; exact u1) (by show 0 ≤ cy; exact u2)
+        (by show cy ≤ H; omega) (by show cx + advSum (atSize base h v cx cy) s ≤ W; omega)
+    have hneB : NoEarly (geo0 W H) { atSize base h v cx cy with cx := (atSize base h v cx cy).cx + dx, cy := (atSize base h v cx cy).cy + dy } s :=
+      noEarly_of_fits W H s _ (by show 1 ≤ h; exact hh) (by show 1 ≤ v; exact hv) (by show 0 ≤ cx + dx; exact u5) (by show 0 ≤ cy + dy; exact u6)
+        (by show cy + dy ≤ H; omega) (by rw [advSum_cxy]; show cx + dx + advSum (atSize base h v cx cy) s ≤ W; omega)
+    have key := translation W H (atSize base h v cx cy) s hs hwr hbg dx dy hneA hneB Xn Yn Xn' Yn' (by omega) (by omega) (by omega) (by omega)
+      (by omega) (by omega)
+    have gA : (renderText (newCanvas W H, atSize base h v cx cy) s).1.geo.wib = (W + 7) / 8 := by
+      rw [(renderText_box s hs (newCanvas W H) (newCanvas_wf' W H) (atSize base h v cx cy) hwr (by show 0 ≤ h; omega)).geo]; rfl
+    have gB : (renderText (newCanvas W H, { atSize base h v cx cy with cx := (atSize base h v cx cy).cx + dx, cy := (atSize base h v cx cy).cy + dy }) s).1.geo.wib = (W + 7) / 8 := by
+      rw [(renderText_box s hs (newCanvas W H) (newCanvas_wf' W H)
+        { atSize base h v cx cy with cx := (atSize base h v cx cy).cx + dx, cy := (atSize base h v cx cy).cy + dy } hwr (by show 0 ≤ h; omega)).geo]; rfl
+    have r1 := bitAt_getPx (renderText (newCanvas W H, atSize base h v cx cy) s).1 Xn Yn (by rw [gA]; omega)
+    have r2 := bitAt_getPx (renderText (newCanvas W H, { atSize base h v cx cy with cx := (atSize base h v cx cy).cx + dx, cy := (atSize base h v cx cy).cy + dy }) s).1
+      Xn' Yn' (by rw [gB]; omega)
+    rw [gA] at r1; rw [gB] at r2
+    rw [r1, r2]
+    exact key
+  · -- the documented deviation
+    intro u1 u2 u3 u4 u9 u10 u11 u12 X Y J q hXW hYH q0 q1 j0 eY hYband
+    rw [esw, etsH] at u4
+    rw [esw1, etsH1] at u10
+    rw [elh] at u3 hYband
+    rw [elh1] at u9
+    have hneh : NoEarly (geo0 W H) (atSize base h v cx cy) s :=
+      noEarly_of_fits W H s _ (by show 1 ≤ h; exact hh) (by show 1 ≤ v; exact hv) (by show 0 ≤ cx; exact u1) (by show 0 ≤ cy; exact u2)
+        (by show cy ≤ H; omega) (by show cx + advSum (atSize base h v cx cy) s ≤ W; omega)
+    have hne1 : NoEarly (geo0 W H) (atSize base 1 1 cx cy) s :=
+      noEarly_of_fits W H s _ (by show (1 : Int) ≤ 1; omega) (by show (1 : Int) ≤ 1; omega) (by show 0 ≤ cx; exact u1) (by show 0 ≤ cy; exact u2)
+        (by show cy ≤ H; omega) (by show cx + advSum (atSize base 1 1 cx cy) s ≤ W; omega)
+    -- the glyph row lies in the cell
+    have hJ : J < (base.fp.bbH : Int) := by
+      have hvJ : v * J < v * (base.fp.bbH : Int) := by
+        have : (base.fp.bbH : Int) * v = v * (base.fp.bbH : Int) := Int.mul_comm _ _
+        omega
+      exact Int.lt_of_mul_lt_mul_left hvJ (by omega)
+    obtain ⟨Y1, hY1⟩ := Int.eq_ofNat_of_zero_le (a := cy + J) (by omega)
+    have hY1H : Y1 < H := by omega
+    have gA : (renderText (newCanvas W H, atSize base h v cx cy) s).1.geo.wib = (W + 7) / 8 := by
+      rw [(renderText_box s hs (newCanvas W H) (newCanvas_wf' W H) (atSize base h v cx cy) hwr (by show 0 ≤ h; omega)).geo]; rfl
+    have gC : (renderText (newCanvas W H, atSize base 1 1 cx cy) s).1.geo.wib = (W + 7) / 8 := by
+      rw [(renderText_box s hs (newCanvas W H) (newCanvas_wf' W H) (atSize base 1 1 cx cy) hwr (by show (0 : Int) ≤ 1; omega)).geo]; rfl
+    have r1 := bitAt_getPx (renderText (newCanvas W H, atSize base h v cx cy) s).1 X Y (by rw [gA]; omega)
+    rw [gA] at r1
+    rw [r1]
+    have a := renderText_blank W H (atSize base h v cx cy) s hs hwr hbg hneh X Y hXW hYH
+    have dev := textR0_dev W H s base h v cy (by omega) (by omega) cx cx u1 (by omega) J q X Y Y1 hXW hYH hY1H q0 q1 eY hY1.symm
+    have tc : (atSize base h v cx cy).tcol = (atSize base 1 1 cx cy).tcol := rfl
+    cases hd : Spec.Text.devSource h (↑base.spacing) (glyphWs base s) cx cx ↑X with
+    | none =>
+      rw [hd] at dev
+      simp only [devR] at dev
+      simp only [devBit]
+      exact a.2 (fun hr => dev.1 hr)
+    | some xc =>
+      rw [hd] at dev
+      simp only [devR] at dev
+      simp only [devBit]
+      have hxc0 : cx ≤ xc := devSource_ge h base.spacing (by omega) (by omega) (glyphWs base s)
+        (by intro w hw; unfold glyphWs at hw; simp only [List.mem_map] at hw; obtain ⟨c, _, rfl⟩ := hw; omega) _ _ _ _ hd
+      have hxcn : ((xc.toNat : Nat) : Int) = xc := Int.toNat_of_nonneg (by omega)
+      rw [← hxcn, hY1]
+      by_cases hxW : xc.toNat < W
+      · have r2 := bitAt_getPx (renderText (newCanvas W H, atSize base 1 1 cx cy) s).1 xc.toNat Y1 (by rw [gC]; omega)
+        rw [gC] at r2
+        rw [r2]
+        have b := renderText_blank W H (atSize base 1 1 cx cy) s hs hwr hbg hne1 xc.toNat Y1 hxW hY1H
+        by_cases hr : textR0 (geo0 W H) (atSize base 1 1 cx cy) s xc.toNat Y1
+        · rw [b.1 hr, a.1 (dev.2 hr), tc]
+        · rw [b.2 hr, a.2 (fun h => hr (dev.1 h))]
+      · -- beyond the canvas both sides are blank
+        have hC : Spec.Text.bitAt ((W + 7) / 8) (bytesU8 (renderText (newCanvas W H, atSize base 1 1 cx cy) s).1) ((xc.toNat : Nat) : Int) ((Y1 : Nat) : Int) = false := by
+          cases hb : Spec.Text.bitAt ((W + 7) / 8) (bytesU8 (renderText (newCanvas W H, atSize base 1 1 cx cy) s).1) ((xc.toNat : Nat) : Int) ((Y1 : Nat) : Int) with
+          | false => rfl
+          | true => have := bitAt_inside hb; omega
+        rw [hC]
+        refine a.2 (fun hr => ?_)
+        have := textR0_clip W H s (atSize base 1 1 cx cy) xc.toNat Y1 (dev.1 hr)
+        omega
+
+/-- non-vacuity of `spec_check_spacing`, and the recorded example: "ab" in font 0 with extra spacing 1 at size 2×2 on a 32×16
+canvas lies in the class, is unclipped, and the Spec's verdict on the model's renderings is the excused `scale.spacing`
+(not `none`: the plain `scale` clause is false there, `scale_with_spacing_counterexample`) -/
+def devSt : TextSt := { spacing := 1, wrap := false, tcol := true, tbg := true }
+def devCase : Spec.Text.Case :=
+  withCws (oneLineCase 32 16 0 0 0 0 2 2 (lineHeight (atSize devSt 2 2 0 0)) (lineHeight (atSize devSt 1 1 0 0))
+    (strWidth (atSize devSt 2 2 0 0) [97, 98]) (strWidth (atSize devSt 1 1 0 0) [97, 98]) devSt.spacing 2) (glyphWs devSt [97, 98])
+
+example : Spec.Text.knownSpacingClass devCase = true ∧ Spec.Text.unclipped devCase = true := by decide +kernel
+
+example : Spec.Text.check devCase (bytesU8 (renderText (newCanvas 32 16, atSize devSt 2 2 0 0) [97, 98]).1)
+    (bytesU8 (renderText (newCanvas 32 16, atSize devSt 2 2 0 0) [97, 98]).1)
+    (bytesU8 (renderText (newCanvas 32 16, atSize devSt 1 1 0 0) [97, 98]).1) = some "scale.spacing" := by decide +kernel
+
+/-- the deviation clause has teeth: the same case with one more pixel lit in the enlarged rendering (bit 7 of the first
+byte: pixel (0,0), inside the first glyph cell, blank in the size-1 rendering) is a plain `scale` violation -/
+example : Spec.Text.check devCase
+    ((bytesU8 (renderText (newCanvas 32 16, atSize devSt 2 2 0 0) [97, 98]).1).set! 0 128)
+    ((bytesU8 (renderText (newCanvas 32 16, atSize devSt 2 2 0 0) [97, 98]).1).set! 0 128)
+    (bytesU8 (renderText (newCanvas 32 16, atSize devSt 1 1 0 0) [97, 98]).1) = some "scale" := by decide +kernel
+
+/-- the recorded example in terms of columns: with glyph widths 6, 6, extra spacing 1 and size 2, column 12 of the enlarged
+line is the gap between the glyphs (no cell), column 13 the first column of the second glyph, which shows size-1 column 7;
+the plain `scale` clause compares it with column 13/2 = 6 -/
+example : glyphWs devSt [97, 98] = [6, 6] ∧ Spec.Text.devSource 2 1 [6, 6] 0 0 12 = none ∧
+    Spec.Text.devSource 2 1 [6, 6] 0 0 13 = some 7 := by decide +kernel
+
+/-- **The executable Spec holds of the model's three renderings** in the fixed setter order of `text.case` (font, size,
+spacing 0, wrap off, colour, cursor): the instance of `spec_check_holds_state` for the state that order leaves. -/
+theorem spec_check_holds (W H : Nat) (hW8 : W % 8 = 0) (font : Int) (prop : Bool) (h v cx cy dx dy : Int) (s : List Nat)
+    (hs : 10 ∉ s) (hh : 1 ≤ h) (hv : 1 ≤ v) (hv' : v < 16777216) (glyphs : Nat) :
+    Spec.Text.check
+      (oneLineCase W H cx cy dx dy h v (lineHeight (caseState font prop 0 h v cx cy)) (lineHeight (caseState font prop 0 1 1 cx cy))
+        (strWidth (caseState font prop 0 h v cx cy) s) (strWidth (caseState font prop 0 1 1 cx cy) s) 0 glyphs)
+      (bytesU8 (renderText (newCanvas W H, caseState font prop 0 h v cx cy) s).1)
+      (bytesU8 (renderText (newCanvas W H, caseState font prop 0 h v (cx + dx) (cy + dy)) s).1)
+      (bytesU8 (renderText (newCanvas W H, caseState font prop 0 1 1 cx cy) s).1) = none := by
+  rw [caseState_eq font prop h v cx cy hh hv, caseState_eq font prop h v (cx + dx) (cy + dy) hh hv,
+    caseState_eq font prop 1 1 cx cy (by omega) (by omega)]
+  exact spec_check_holds_state W H hW8 (mkState font prop 0 0 1 1) rfl rfl rfl h v cx cy dx dy s hs hh hv hv' glyphs
+
+/-! ## One image object, any call history (`text.sess`) -/
+
+theorem writeChar_colours (ct : Canvas × TextSt) (ch : Nat) :
+    (writeChar ct ch).2.tcol = ct.2.tcol ∧ (writeChar ct ch).2.tbg = ct.2.tbg := by
+  obtain ⟨c, t⟩ := ct
+  unfold writeChar
+  simp only []
+  split
+  · exact ⟨rfl, rfl⟩
+  · split
+    · exact ⟨rfl, rfl⟩
+    · split <;> exact ⟨rfl, rfl⟩
+
+theorem renderText_colours (s : List Nat) (ct : Canvas × TextSt) :
+    (renderText ct s).2.tcol = ct.2.tcol ∧ (renderText ct s).2.tbg = ct.2.tbg := by
+  unfold renderText
+  induction s generalizing ct with
+  | nil => exact ⟨rfl, rfl⟩
+  | cons ch rest ih =>
+    rw [List.foldl_cons]
+    obtain ⟨a, b⟩ := ih (writeChar ct ch)
+    obtain ⟨a', b'⟩ := writeChar_colours ct ch
+    exact ⟨a.trans a', b.trans b'⟩
+
+/-- no call separates the background colour from the text colour (`SetTextColor` sets both; nothing else writes them) -/
+theorem applyCall_bg (st : Canvas × TextSt) (call : TextCall) (h : st.2.tbg = st.2.tcol) :
+    (applyCall st call).2.tbg = (applyCall st call).2.tcol := by
+  cases call with
+  | render s =>
+    obtain ⟨a, b⟩ := renderText_colours s st
+    show (renderText st s).2.tbg = (renderText st s).2.tcol
+    rw [a, b]; exact h
+  | color b => rfl
+  | _ => exact h
+
+/-- **whatever the history**, the object's background colour equals its text colour (a fresh object has both off) -/
+theorem runCalls_bg (calls : List TextCall) (st : Canvas × TextSt) (h : st.2.tbg = st.2.tcol) :
+    (runCalls st calls).2.tbg = (runCalls st calls).2.tcol := by
+  unfold runCalls
+  induction calls generalizing st with
+  | nil => exact h
+  | cons call rest ih => rw [List.foldl_cons]; exact ih _ (applyCall_bg st call h)
+
+/-- **The final case of a session obeys the executable Spec.**  Take any call history on a fresh image object (`NewImage(W0,
+H0)`, then setters in any order, metric queries, earlier texts, re-creations, direct `DrawChar`s); let `t` be the text state
+it leaves.  If the extra spacing is 0 then and the sizes are `≥ 1`, the three renderings of the final case — wrapping off,
+cursor set, `C` at size 1 (`Mono.sessA`, `Mono.sessC`: exactly what `Driver/Text.sess` and the harness do) — of any string
+without line feed on a blank canvas satisfy `Spec.Text.check` with the metrics the model reports in that state. -/
+theorem sess_final_holds (W0 H0 : Nat) (calls : List TextCall) (W H : Nat) (hW8 : W % 8 = 0) (cx cy dx dy : Int)
+    (s : List Nat) (hs : 10 ∉ s) (glyphs : Nat)
+    (hsp : (runCalls (newCanvas W0 H0, {}) calls).2.spacing = 0)
+    (hh : 1 ≤ (runCalls (newCanvas W0 H0, {}) calls).2.tsH) (hv : 1 ≤ (runCalls (newCanvas W0 H0, {}) calls).2.tsV)
+    (hv' : (runCalls (newCanvas W0 H0, {}) calls).2.tsV < 16777216) :
+    Spec.Text.check
+      (oneLineCase W H cx cy dx dy (runCalls (newCanvas W0 H0, {}) calls).2.tsH (runCalls (newCanvas W0 H0, {}) calls).2.tsV
+        (lineHeight (sessA (runCalls (newCanvas W0 H0, {}) calls).2 cx cy)) (lineHeight (sessC (runCalls (newCanvas W0 H0, {}) calls).2 cx cy))
+        (strWidth (sessA (runCalls (newCanvas W0 H0, {}) calls).2 cx cy) s) (strWidth (sessC (runCalls (newCanvas W0 H0, {}) calls).2 cx cy) s) 0 glyphs)
+      (bytesU8 (renderText (newCanvas W H, sessA (runCalls (newCanvas W0 H0, {}) calls).2 cx cy) s).1)
+      (bytesU8 (renderText (newCanvas W H, sessA (runCalls (newCanvas W0 H0, {}) calls).2 (cx + dx) (cy + dy)) s).1)
+      (bytesU8 (renderText (newCanvas W H, sessC (runCalls (newCanvas W0 H0, {}) calls).2 cx cy) s).1) = none := by
+  have hbg := runCalls_bg calls (newCanvas W0 H0, {}) rfl
+  generalize (runCalls (newCanvas W0 H0, {}) calls).2 = t at *
+  have eA : sessA t cx cy = atSize { t with wrap := false } t.tsH t.tsV cx cy := rfl
+  have eB : sessA t (cx + dx) (cy + dy) =
+      { atSize { t with wrap := false } t.tsH t.tsV cx cy with
+        cx := (atSize { t with wrap := false } t.tsH t.tsV cx cy).cx + dx,
+        cy := (atSize { t with wrap := false } t.tsH t.tsV cx cy).cy + dy } := rfl
+  have eC : sessC t cx cy = atSize { t with wrap := false } 1 1 cx cy := by
+    unfold sessC setTextSize setCursor atSize
+    simp
+  rw [eA, eB, eC]
+  exact spec_check_holds_state W H hW8 { t with wrap := false } hsp rfl hbg t.tsH t.tsV cx cy dx dy s hs hh hv hv' glyphs
+
+/-- non-vacuity of `sess_final_holds`: size set before the font, a text measured, the font switched, the canvas re-created
+and the font set again — the history leaves font 1 fixed at size 1×1 (re-creation resets the size), spacing 0 -/
+example : (runCalls (newCanvas 8 8, {}) [.size 3 2, .font 2 true, .strWidth [49, 46], .color true, .newImage 64 24, .font 1 false]).2
+    = { font := 1, prop := false, spacing := 0, cx := 0, cy := 0, tcol := true, tbg := true, tsH := 1, tsV := 1, wrap := true } := by
+  decide
 
 /-- non-vacuity: for "AZ", font 0, size 2×2 at (2,1) moved by (3,2) on a 64×40 canvas the Spec's `unclipped` test is true, so
 `spec_check_holds` speaks about all four clauses there -/
